@@ -29,6 +29,9 @@ CONFIGS = {
     "mem": ["optuna.storages._in_memory", "optuna.study.study"],
     "jlist": ["optuna.storages.journal._storage", "optuna.study.study"],
     "jlist-procs": ["optuna.storages.journal._storage"],
+    # worker processes forked from one parent: their storages are pickled copies of the parent's and
+    # their main threads have one and the same thread ident
+    "jlist-forked": ["optuna.storages.journal._storage"],
     "cached": ["optuna.storages._cached_storage", "optuna.study.study"],
     "grpc(mem)": ["optuna.storages._grpc.client", "optuna.study.study"],
 }
@@ -77,8 +80,21 @@ class World:
         self.asked: list = []
         self.prefix_bad: list = []
         self.worker_storages: list = []
+        self.prefix_claimed: set = set()
 
     def worker_studies(self, n: int) -> list:
+        if self.config == "jlist-forked":
+            import pickle
+
+            backends._LIST_SHARED.clear()
+            blob = pickle.dumps(self.env.storage)
+            out = []
+            for _ in range(n):
+                st = pickle.loads(blob)
+                out.append(optuna.load_study(study_name="c04", storage=st, sampler=optuna.samplers.RandomSampler(seed=0)))
+                self.storages.append(st)
+                self.worker_storages.append(st)
+            return out
         if self.config == "jlist-procs":
             out = []
             for _ in range(n):
@@ -118,6 +134,7 @@ class World:
             self.queued[before] = (fixed_pair(k), {"q": k})
         elif op == "ask":
             t = s.ask()
+            self.prefix_claimed.add(t.number)
             v = suggest_both(t)
             self.asked.append(t)
             if t.number in self.queued:
@@ -172,6 +189,20 @@ PROGRAMS = {
 }
 
 
+class _ForkedThreading:
+    """`threading` as the journal storage module sees it inside processes forked from one parent:
+    every process's main thread has the same ident (everything else is the real module)."""
+
+    def __init__(self, real: Any) -> None:
+        self._real = real
+
+    def get_ident(self) -> int:
+        return 4242
+
+    def __getattr__(self, name: str) -> Any:
+        return getattr(self._real, name)
+
+
 class Run:
     def __init__(self, config: str, prefix: tuple, programs: tuple, offset: bool = False) -> None:
         self.config, self.prefix, self.programs, self.offset = config, prefix, programs, offset
@@ -179,6 +210,11 @@ class Run:
 
     def execute(self, ch: Chooser) -> dict:
         backends.reset_uuid()
+        import optuna.storages.journal._storage as jmod
+
+        real_threading = jmod.threading
+        if self.config == "jlist-forked":
+            jmod.threading = _ForkedThreading(real_threading)  # main threads of forked children share the ident
         w = World(self.config, len(self.programs), self.offset)
         try:
             for op in self.prefix:
@@ -233,13 +269,14 @@ class Run:
             derr = [t.error for t in threads if t.error and t.error != "deadlock"]
             if derr:
                 raise InternalError(f"driver error {derr}")
-            final = w.study.get_trials(deepcopy=True) if self.config != "jlist-procs" else \
+            final = w.study.get_trials(deepcopy=True) if self.config not in ("jlist-procs", "jlist-forked") else \
                 optuna.load_study(study_name="c04", storage=JournalStorage(ListBackend(w.env._shared))).get_trials(deepcopy=True)
             return {"got": got, "errors": errors, "final": [(t.number, t.state.name, dict(t.params), dict(t.user_attrs),
                                                               t.system_attrs.get("fixed_params")) for t in final],
                     "queued_before": q_before, "enq_done": enq_done, "deadlock": sched.deadlock, "steps": sched.step,
-                    "prefix_bad": list(w.prefix_bad)}
+                    "prefix_bad": list(w.prefix_bad), "prefix_claimed": sorted(w.prefix_claimed)}
         finally:
+            jmod.threading = real_threading
             w.close()
 
     def check(self, ex: dict) -> list[tuple[str, str]]:
@@ -283,9 +320,9 @@ class Run:
             if still_waiting and fresh_late:
                 bad.append(("fresh-trial-created-while-queued-trial-left-waiting", f"waiting {still_waiting}"))
         for n, (st, params, ua, fp) in final.items():
-            if st == "RUNNING" and n not in claims and n not in [t for t in range(0)]:
-                # RUNNING trials must be held by someone: either a prefix ask or a concurrent ask
-                pass
+            if st == "RUNNING" and fp is not None and n not in claims and n not in ex.get("prefix_claimed", ()):
+                # a queued trial that left WAITING must be in somebody's hands
+                bad.append(("queued-trial-RUNNING-but-returned-by-no-ask", f"trial {n}"))
         return bad
 
 
@@ -355,7 +392,7 @@ def run(tier: str, replay: str | None = None) -> int:
         for p in pres:
             for progs in progs2:
                 tasks.append((cfg, p, progs, bound))
-            if cfg == "jlist-procs":
+            if cfg in ("jlist-procs", "jlist-forked"):
                 tasks.append((cfg, p, (("open", "ask"), ("ask",)), bound))
             if (tier == "thorough" or cfg == "mem") and not slow:
                 for progs in PROGRAMS[3]:
